@@ -25,6 +25,8 @@
 //	                                configured with the most recently configured rate (F)
 //	   ext wyhash <id> = <h>        obs A <L answer> B <F answer>
 //
+//	-- wiring leg (header coll=1 crate=<n>; see collector.go): creload cfg|rules|both <rate>, cask <id>
+//
 // Trace IDs are percent-encoded tokens (kit.Enc).
 package main
 
@@ -245,6 +247,41 @@ func (comp) Gen(r *kit.Rng, maxLen int, tier string) kit.Case {
 			ops = append(ops, fmt.Sprintf("stress %s %d", kit.Enc(id), genStressRate(r, wyh(id))))
 		}
 	}
+	hdrColl := ""
+	collPct := 15
+	if tier == "thorough" {
+		collPct = 4
+	}
+	if r.Chance(collPct) { // wiring leg: reloads through the real collector, fresh trace IDs in between
+		crate := smallRate()
+		hdrColl = fmt.Sprintf(" coll=1 crate=%d", crate)
+		var cops []string
+		if r.Chance(50) {
+			cops = append(cops, "cask "+hexID(r, 16))
+		}
+		for k := 2 + r.Intn(4); k > 0; k-- {
+			which := []string{"cfg", "cfg", "rules", "both"}[r.Intn(4)]
+			nr := smallRate()
+			for nr == crate && r.Chance(80) {
+				nr = smallRate()
+			}
+			crate = nr
+			cops = append(cops, fmt.Sprintf("creload %s %d", which, nr))
+			for q := 2 + r.Intn(4); q > 0; q-- {
+				cops = append(cops, "cask "+hexID(r, 16))
+			}
+		}
+		// spread over the case, order kept
+		var mixed []string
+		for len(cops) > 0 || len(ops) > 0 {
+			if len(cops) > 0 && (len(ops) == 0 || r.Chance(40)) {
+				mixed, cops = append(mixed, cops[0]), cops[1:]
+			} else {
+				mixed, ops = append(mixed, ops[0]), ops[1:]
+			}
+		}
+		ops = mixed
+	}
 	fracPct, fracN := 30, 4000
 	if tier == "thorough" {
 		fracPct = 8
@@ -256,7 +293,7 @@ func (comp) Gen(r *kit.Rng, maxLen int, tier string) kit.Case {
 		}
 		ops = append(ops, fmt.Sprintf("frac %s %d %d %d", kind, r.Next()>>1, fracN, fracRates[r.Intn(len(fracRates))]))
 	}
-	return kit.Case{Header: fmt.Sprintf("pool=%d smode=%s srate=%d", np, smode, srate), Ops: ops}
+	return kit.Case{Header: fmt.Sprintf("pool=%d smode=%s srate=%d", np, smode, srate) + hdrColl, Ops: ops}
 }
 
 // ---- running the real code
@@ -326,6 +363,7 @@ type runner struct {
 	ps      *pubsub.LocalPubSub
 	liveCfg *config.MockConfig
 	cfgRate uint64
+	coll    *collLeg
 }
 
 type nopHealth struct{}
@@ -358,6 +396,13 @@ func (comp) NewCase(h []string) kit.Runner {
 		panic(err)
 	}
 	rn.reload(mode, rate) // collector start-up
+	if kit.KV(h, "coll") == "1" {
+		crate := uint64(100)
+		if v, err := strconv.ParseUint(kit.KV(h, "crate"), 10, 64); err == nil {
+			crate = v
+		}
+		rn.coll = newCollLeg(crate)
+	}
 	return rn
 }
 
@@ -437,6 +482,21 @@ func (rn *runner) Do(op []string) (string, bool) {
 			})
 		}
 		return "A " + ask(rn.stressA) + " B " + ask(newStress), true
+	case "creload":
+		if len(op) != 3 || rn.coll == nil || (op[1] != "cfg" && op[1] != "rules" && op[1] != "both") {
+			return "bad-op", true
+		}
+		rate, err := strconv.ParseUint(op[2], 10, 64)
+		if err != nil {
+			return "bad-op", true
+		}
+		rn.coll.reload(op[1], rate)
+		return "", false
+	case "cask":
+		if len(op) != 2 || rn.coll == nil {
+			return "bad-op", true
+		}
+		return rn.coll.ask(op[1], kit.Dec(op[1])), true
 	case "sreload":
 		if len(op) != 3 {
 			return "bad-op", true
@@ -539,6 +599,9 @@ func (rn *runner) Do(op []string) (string, bool) {
 }
 
 func (r *runner) Close() {
+	if r.coll != nil {
+		r.coll.close()
+	}
 	close(r.live.Done)
 	r.ps.Stop()
 }
